@@ -36,6 +36,7 @@ pub fn analyze_trait(item_trait: syn::ItemTrait) -> syn::Result<OutTrait> {
                     attrs: method.attrs,
                     entrait_sig,
                     originally_async,
+                    default_body: method.default,
                 });
             }
             syn::TraitItem::Type(ty) => {
